@@ -53,8 +53,8 @@ from gen import g4_sampler as g4
 from specs import sampler_spec as sp
 
 ID = 'C17'
-LEVEL = 'exploration'
-P_TARGETS = []
+LEVEL = 'other'
+P_TARGETS = ['cgsmiles.sample:_set_bond_order_defaults', 'cgsmiles.sample:_select_bonding_operator']
 BUDGET = {'quick': 34.0, 'thorough': 390.0}
 CHUNK = 100
 N_RANDOM = {'quick': 3000, 'thorough': 150000}
